@@ -62,8 +62,13 @@ let cmd_setdur r =
 let cmd_calcdur r =
   let args = rd_list rd_arg r in tok_of_q (calc_duration args)
 
-let pr_pair (a, b) = tok_of_q a ^ " " ^ tok_of_q b
-let pr_rf (u, t) = tok_of_z u ^ " " ^ tok_of_q t
+(* unreduced num/den: the reduction (gcd on unary-bit positives) dominates the run time of long lists and the
+   Python side reduces fractions anyway *)
+let tok_raw (x : q) : string = match x.qden with
+  | XH -> tok_of_z x.qnum
+  | d -> tok_of_z x.qnum ^ "/" ^ hex_of_pos d
+let pr_pair (a, b) = tok_raw a ^ " " ^ tok_raw b
+let pr_rf (u, t) = tok_of_z u ^ " " ^ tok_raw t
 
 let cmd_timeline r =
   let sys = rd_sys r in
@@ -71,9 +76,9 @@ let cmd_timeline r =
   let g = sys.s_grad_raster in
   String.concat " | " [
     tok_of_q (seq_duration bs); tok_of_q (total_duration bs);
-    pr_list tok_of_q (starts bs);
-    pr_list tok_of_q (List.mapi (fun i _ -> tr_start bs (nat_of_int i)) bs);
-    pr_list tok_of_q (adc_times bs);
+    pr_list tok_raw (starts bs);
+    pr_list tok_raw (List.mapi (fun i _ -> tr_start bs (nat_of_int i)) bs);
+    pr_list tok_raw (adc_times bs);
     pr_list pr_rf (rf_times bs);
     pr_list pr_pair (wave_pieces g SGx bs);
     pr_list pr_pair (wave_pieces g SGy bs);
@@ -81,7 +86,33 @@ let cmd_timeline r =
     pr_list (fun b -> tok_of_z (blocks_column sys b)) bs;
     pr_list (fun b -> tok_of_q (block_duration b)) bs ]
 
+(* time_range variants for one window *)
+let cmd_tr r =
+  let sys = rd_sys r in
+  let bs = rd_list rd_block r in
+  let lo = rd_q r in let hi = rd_q r in
+  let g = sys.s_grad_raster in
+  String.concat " | " [
+    Printf.sprintf "%d %d" (int_of_nat (begin_block bs lo)) (int_of_nat (end_block bs hi));
+    pr_list tok_raw (adc_times_tr bs lo hi);
+    pr_list pr_rf (rf_times_tr bs lo hi);
+    pr_list pr_pair (wave_pieces_tr g SGx bs lo hi);
+    pr_list pr_pair (wave_pieces_tr g SGy bs lo hi);
+    pr_list pr_pair (wave_pieces_tr g SGz bs lo hi) ]
+
+let cmd_counts r =
+  let bs = rd_list rd_block r in
+  pr_list tok_of_z (event_count bs)
+
+let cmd_rfdecode r =
+  let raster = rd_q r in
+  let sh = if rd_bool r then RfRegular (rd_z r) else RfTimes (rd_q r) in
+  tok_of_q (decode_rf_tlast raster sh) ^ " " ^ tok_of_q (decode_rf_shape_dur raster sh)
+
 let () =
+  Driver.register "timing.tr" cmd_tr;
+  Driver.register "timing.counts" cmd_counts;
+  Driver.register "timing.rfdecode" cmd_rfdecode;
   Driver.register "timing.check" cmd_check;
   Driver.register "timing.div" cmd_div;
   Driver.register "timing.setdur" cmd_setdur;
